@@ -6,6 +6,7 @@ delegated to real numpy on positions (views share `buf`, copies get a new one).
 Loaded by `install()` AFTER real numpy has been imported and stashed as sys.modules['_realnumpy'].
 """
 import sys, types, operator
+import builtins as _b
 import z3
 from . import symx
 from .symx import SymNum, SymBool, lift, Inconclusive, Outside
@@ -522,7 +523,7 @@ class MaskedArray(ndarray):
         return ndarray._new([x for x, b in zip(self.cells(), bits) if not b], (bits.count(False),), self.kind)
 
     def count(self):
-        return self.size - sum(1 for m in self.maskcells() if symx.CTX.decide(m))
+        return self.size - _b._b.sum(1 for m in self.maskcells() if symx.CTX.decide(m))
 
     # --- masks of binary results
     def _mask_or(self, other, shape):
@@ -771,19 +772,20 @@ def array(obj, dtype=None, copy=True):
         c = obj.data.cells()
         return ndarray._new([_cast(v, obj.kind, k) for v in c], obj.shape, k or obj.kind)
     if isinstance(obj, (list, tuple)):
-        if obj and all(isinstance(o, ndarray) for o in obj):
+        if obj and _b.all(isinstance(o, ndarray) for o in obj):
             parts = [o.data for o in obj]
-            kk = 'f' if any(p.kind == 'f' for p in parts) else parts[0].kind
+            kk = 'f' if _b.any(p.kind == 'f' for p in parts) else parts[0].kind
             cells = [_cast(v, p.kind, kk) for p in parts for v in p.cells()]
             return ndarray._new([_cast(v, kk, k) for v in cells], (len(parts),) + parts[0].shape, k or kk)
         terms = [_scalar_term(o) for o in obj]
-        kk = 'f' if any(t[1] == 'f' for t in terms) else ('i' if any(t[1] == 'i' for t in terms) else ('b' if terms else 'f'))
+        kk = 'f' if _b.any(t[1] == 'f' for t in terms) else ('i' if _b.any(t[1] == 'i' for t in terms) else ('b' if terms else 'f'))
         return ndarray._new([_cast(_cast(t, tk, kk), kk, k) for t, tk in terms], (len(terms),), k or kk)
     t, tk = _scalar_term(obj)
     return ndarray._new([_cast(t, tk, k)], (), k or tk)
 
 
 asarray = array
+_core_array = array
 
 
 def full(shape, fill_value, dtype=None):
@@ -809,9 +811,9 @@ def vstack(arrs):
     for p in parts[1:]:
         if p.shape[1:] != parts[0].shape[1:]:
             raise ValueError("all the input array dimensions except for the concatenation axis must match exactly")
-    kk = 'f' if any(p.kind == 'f' for p in parts) else parts[0].kind
+    kk = 'f' if _b.any(p.kind == 'f' for p in parts) else parts[0].kind
     cells = [_cast(v, p.kind, kk) for p in parts for v in p.cells()]
-    return ndarray._new(cells, (sum(p.shape[0] for p in parts),) + parts[0].shape[1:], kk)
+    return ndarray._new(cells, (_b.sum(p.shape[0] for p in parts),) + parts[0].shape[1:], kk)
 
 
 def stack(arrs, axis=0):
@@ -821,7 +823,7 @@ def stack(arrs, axis=0):
     for p in parts[1:]:
         if p.shape != parts[0].shape:
             raise ValueError("all input arrays must have the same shape")
-    kk = 'f' if any(p.kind == 'f' for p in parts) else parts[0].kind
+    kk = 'f' if _b.any(p.kind == 'f' for p in parts) else parts[0].kind
     cells = [_cast(v, p.kind, kk) for p in parts for v in p.cells()]
     return ndarray._new(cells, (len(parts),) + parts[0].shape, kk)
 
@@ -910,21 +912,21 @@ def _ma_array(data, dtype=None, copy=False, mask=nomask, fill_value=None, **kw):
     share = (not copy) and isinstance(data, ndarray) and (k is None or k == data.kind)
     if isinstance(data, MaskedArray):
         # copy=False (the default): the new array views the same data AND the same mask array, as numpy does
-        d = ndarray(data.buf, data.idx, data.kind) if share else array(data.data, dtype=dtype)
+        d = ndarray(data.buf, data.idx, data.kind) if share else _core_array(data.data, dtype=dtype)
         own = None if data._mask is None else (data._mask if share else data._mask.copy())
         if fill_value is None:
             fill_value = data._fill
     elif isinstance(data, ndarray):
-        d = ndarray(data.buf, data.idx, data.kind) if share else array(data, dtype=dtype)
-    elif isinstance(data, (list, tuple)) and data and all(isinstance(o, ndarray) for o in data):
-        d = array(list(data), dtype=dtype)
-        if any(isinstance(o, MaskedArray) and o._mask is not None for o in data):
+        d = ndarray(data.buf, data.idx, data.kind) if share else _core_array(data, dtype=dtype)
+    elif isinstance(data, (list, tuple)) and data and _b.all(isinstance(o, ndarray) for o in data):
+        d = _core_array(list(data), dtype=dtype)
+        if _b.any(isinstance(o, MaskedArray) and o._mask is not None for o in data):
             mc = [m for o in data for m in (o.maskcells() if isinstance(o, MaskedArray) else [_F()] * o.size)]
             own = ndarray._new(mc, d.shape, 'b')
             if not bool(own.any()):
                 own = None
     else:
-        d = array(data, dtype=dtype)
+        d = _core_array(data, dtype=dtype)
     m = own
     if mask is NOMASK:
         mask = None
@@ -934,9 +936,9 @@ def _ma_array(data, dtype=None, copy=False, mask=nomask, fill_value=None, **kw):
         else:
             mm = mask.data if isinstance(mask, MaskedArray) else mask
             if isinstance(mm, (list, tuple)):
-                mm = array(list(mm), dtype='b')
+                mm = _core_array(list(mm), dtype='b')
             if mm.kind != 'b':
-                mm = array(mm, dtype='b')
+                mm = _core_array(mm, dtype='b')
             if mm.shape != d.shape:
                 if mm.size == 1:
                     mm = ndarray._new(mm.cells() * d.size, d.shape, 'b')
